@@ -139,7 +139,8 @@ def zeroed_entries(P, R, H, rule='C11.MPT.4'):
         g = P.direct_target(H, c)
         if g is None:
             continue
-        for t in g.stores():
+        gs_ = [g] + [h for u in g.calls() for h in P.callees(u, False)]
+        for t in [t for g_ in gs_ for t in g_.stores()]:
             if t.ev['k'] == 'store' and is_field(t.ev.get('lhs'), 'vec') and (t.ev.get('rhs') or {}).get('k') == 'callref':
                 n += 1
                 R.ob(rule, t.ev['rhs'].get('callee') in zeroing, t, 'the new rule table is zero-filled (%s): members stored only when their item exists (%s) start out as "not given"' % (t.ev['rhs'].get('callee'), ', '.join(sorted(x for x in cond if x))),
